@@ -408,6 +408,21 @@ def bi_float(e, st, args, kw, node):
     raise Unsupported("float() of this value")
 
 
+def bi_statistics_fmean(e, st, args, kw, node):
+    """statistics.fmean(xs): ASSUMED to lie between the smallest and the largest element of a non-empty sequence (StatisticsError on an empty one)"""
+    st, l = _materialize(e, st, args[0])
+    site = e.site(st, 'call')
+    e.assumptions.add('statistics.fmean(xs): a value between min(xs) and max(xs); requires a non-empty sequence')
+    e.check(st, l.n >= 1, f"safety[{site}]::fmean_of_nonempty", 'safety')
+    r = z3.Real(fresh_name('fmean'))
+    k = z3.Int(fresh_name('fk'))
+    x = e.num(l.at(k))
+    lo, hi = z3.Real(fresh_name('fmean.lo')), z3.Real(fresh_name('fmean.hi'))
+    st.assume(z3.ForAll([k], z3.Implies(z3.And(0 <= k, k < l.n), z3.And(lo <= x, x <= hi)), patterns=[z3.Select(l.arrs[0], l.off + k)]),
+              z3.Exists([k], z3.And(0 <= k, k < l.n, x == lo)), z3.Exists([k], z3.And(0 <= k, k < l.n, x == hi)), lo <= r, r <= hi)
+    return st, VReal(r)
+
+
 def bi_math_ceil(e, st, args, kw, node):
     v = args[0]
     e.assumptions.add('math.ceil(x) of a float-computed quotient equals the exact ceiling (operands below 2^53)')
